@@ -12,7 +12,7 @@ Channel / select semantics (stated, small; DESIGN.md 2.3-2):
   the rendezvous and `default` are admitted); several ready cases: any of them;
   closed channel: receive always ready; timer channel: receive ready at any time.
 """
-import json, math, re, time
+import json, math, os, re, time
 from z3 import *
 
 # ------------------------------------------------------------------ tiny SMT-LIB expression parser
@@ -585,6 +585,23 @@ class Model:
         return And(*f)
 
 # ------------------------------------------------------------------ queries
+_IND = None
+
+def _ind_one(i):
+    ck, pre, post_bad, s, s2, name = _IND
+    m = ck.m
+    st = m.steps[i]
+    g, e = m.step_formula(st, s, s2)
+    sv = Solver()
+    sv.set('timeout', ck.timeout)
+    for f in pre: sv.add(f)
+    sv.add(g, e, post_bad)
+    t0 = time.time()
+    r = sv.check()
+    dt = time.time() - t0
+    desc = ck.describe(sv.model(), s) if r == sat else None
+    return (m.label(st), str(r), dt, desc)
+
 
 class Checker:
     def __init__(self, model, timeout_ms=120000):
@@ -636,12 +653,25 @@ class Checker:
         s, s2 = m.state('pre'), m.state('post')
         pre = [inv(s)]
         if extra_pre is not None: pre.append(extra_pre(s))
-        # one query per step keeps the obligations small and names the offending transition
-        for i, st in enumerate(m.steps):
-            g, e = m.step_formula(st, s, s2)
-            r, mod = self.solve(pre + [g, e, Not(inv(s2))], name + ':step:' + m.label(st))
-            if r != unsat:
-                fails.append((m.label(st), r, self.describe(mod, s) if mod is not None else None))
+        post_bad = Not(inv(s2))
+        # one query per step keeps the obligations small and names the offending transition;
+        # the steps are independent and are discharged by forked worker processes
+        global _IND
+        _IND = (self, pre, post_bad, s, s2, name)
+        nproc = min(int(os.environ.get('VX_E2_PROCS', '12')), max(1, len(m.steps)))
+        if nproc <= 1:
+            results = [_ind_one(i) for i in range(len(m.steps))]
+        else:
+            import multiprocessing as mp
+            with mp.get_context('fork').Pool(nproc) as pool:
+                results = pool.map(_ind_one, range(len(m.steps)), chunksize=max(1, len(m.steps) // (nproc * 4)))
+        for label, r, dt, desc in results:
+            self.stats['queries'] += 1
+            self.stats['solver_s'] += dt
+            if r == 'unknown': self.stats['unknown'] += 1
+            self.stats['obligations'].append({'name': name + ':step:' + label, 'result': r, 's': round(dt, 3)})
+            if r != 'unsat':
+                fails.append((label, r, desc))
         return fails
 
     def describe(self, mod, s):
